@@ -1,6 +1,8 @@
 import WmModel.Props.C13
 import WmModel.Props.C13Tie
 import WmModel.Props.C13Router
+import WmModel.Props.C13Retry
+import WmModel.Props.C12Tie
 import WmModel.Props.C02Tie
 #print axioms Wm.Poison.poisonKeys_distinct
 #print axioms Wm.Poison.lookup_stamp
@@ -29,3 +31,6 @@ import WmModel.Props.C02Tie
 #print axioms Wm.Poison.acked_by_handleMessage_implies_handled_or_poisoned
 #print axioms Wm.GoHandle.handle_skeleton_eq_model
 #print axioms Wm.GoHandle.publish_skeleton_eq_model
+#print axioms Wm.Poison.poison_only_after_retries_failed
+#print axioms Wm.Poison.acked_under_poison_retry
+#print axioms Wm.GoRetry.extracted_retry_eq_model
